@@ -106,7 +106,7 @@ fn k_ing_1b_index_roundtrip() {
 #[kani::stub(crate::cancelled::Cancelled::throw, throw_stub)]
 fn k_z_1_unwind_if_cancelled() {
     let z = bare_zalsa();
-    let local = ZalsaLocal::new();
+    let local = crate::zalsa_local::verif::local_static();
     let flag: bool = kani::any();
     if flag {
         z.runtime().set_cancellation_flag();
